@@ -214,8 +214,26 @@ def r_c13_align_widest_printed(s4, repo, scratch):
             'observed': 'as expected' if not bad else 'with %s: %r' % bad, 'failed': bool(bad)}
 
 
+def r_c04_fractions(s4, repo, scratch):
+    """1 to 9 fractional digits are kept as written"""
+    inp = os.path.join(scratch, 'c04_fractions.log')
+    want = []
+    digs = '123456789'
+    with open(inp, 'w') as f:
+        for k in range(1, 10):
+            f.write('2000-01-02T03:04:%02d.%sZ fraction with %d digits\n' % (k, digs[:k], k))
+            want.append('030400'[:4] + '%02d.%s' % (k, (digs[:k] + '000000000')[:9]))
+    rc, out, err = run_s4(s4, ['--color', 'never', '-u', '-d', '%H%M%S%.9f', '--tz-offset', '+00:00', inp])
+    got = [l.split(b':', 1)[0].decode('ascii', 'replace') for l in out.split(b'\n') if l]
+    bad = [(w, g) for w, g in zip(want, got) if w != g] or ([('%d lines' % len(want), '%d lines' % len(got))] if len(got) != len(want) else [])
+    return {'name': 'C04.fraction_digits', 'input': inp, 'how_made': 'nine lines 2000-01-02T03:04:SS.<1..9 digits>Z',
+            'cmd': '%s --color never -u -d %%H%%M%%S%%.9f --tz-offset +00:00 %s' % (s4, inp),
+            'expected': 'printed fraction = written digits padded with 0 to nine',
+            'observed': 'all as written' if not bad else 'expected %s, printed %s' % bad[0], 'failed': bool(bad)}
+
+
 RECIPES = {
-    'C04': [r_c04_instants],
+    'C04': [r_c04_instants, r_c04_fractions],
     'C10': [r_c03_evtx_window],
     'C01': [r_c01_tie_order, r_c01_chronological],
     'C06': [r_c01_tie_order, r_c01_chronological],
